@@ -32,3 +32,46 @@ class TDefault2(Task):
 
     def execute(self):
         pass
+
+
+# ---- what the identifier ignores but the Sealer follows (open findings, directed probes) --------------
+from typing import Optional  # noqa: E402
+
+from experimaestro import Annotated, LightweightTask, pathgenerator  # noqa: E402
+
+
+class PLeaf(Config):
+    x: Param[int]
+    path: Annotated[Path, pathgenerator("f.txt")]
+
+
+class TIgnored(Task):
+    """m is ignored by the identifier (Meta) and declared before p: a configuration held by both is placed
+    under out/m"""
+    m: Meta[Optional[PLeaf]] = None
+    p: Param[PLeaf]
+
+    def execute(self):
+        pass
+
+
+class PHolder(Config):
+    y: Param[int]
+
+
+class PState(LightweightTask):
+    v: Param[int] = 0
+    state: Annotated[Path, pathgenerator("state.pt")]
+
+    def execute(self):
+        pass
+
+
+class TAttach(Task):
+    """the full identifier hashes the set of the pre-tasks of the whole graph: it does not say whether a or b
+    carries the pre-task"""
+    a: Param[PHolder]
+    b: Param[PHolder]
+
+    def execute(self):
+        pass
